@@ -5,6 +5,7 @@ INVARIANT OutIndexIsHost
 INVARIANT SuccessIsComplete
 INVARIANT NoChallengeNoCredentials
 INVARIANT FaultMeansFailure
+INVARIANT KeyStageFirst
 INVARIANT EmitInv
 PROPERTY Terminates
 CHECK_DEADLOCK FALSE
